@@ -39,6 +39,17 @@ type Characteristic struct {
 
 	// synchronizes updates of the value
 	valueMutex sync.Mutex
+
+	// changes of the value which the listeners have not been told yet,
+	// and whether a goroutine is telling them at the moment
+	changes   []valueChange
+	notifying bool
+}
+
+// valueChange is a change of the value from old to new, made by conn (nil for a local change)
+type valueChange struct {
+	conn     net.Conn
+	new, old interface{}
 }
 
 // NewCharacteristic returns a characteristic
@@ -136,17 +147,17 @@ func (c *Characteristic) updateValue(value interface{}, conn net.Conn, checkPerm
 
 	// The value is compared and stored in one step. Otherwise two updates with the same
 	// value at the same time (from two connections) are both taken for a change.
-	update := func() (bool, interface{}) {
+	update := func() bool {
 		c.valueMutex.Lock()
 		defer c.valueMutex.Unlock()
 
 		if c.Value == value && !c.updateOnSameValue {
-			return false, nil
+			return false
 		}
 
 		// Ignore new values from remote when permissions don't allow write and checkPerms is true
 		if checkPerms && !c.IsWritable() {
-			return false, nil
+			return false
 		}
 
 		old := c.Value
@@ -154,18 +165,51 @@ func (c *Characteristic) updateValue(value interface{}, conn net.Conn, checkPerm
 			c.Value = value
 		}
 
-		return true, old
+		// The change is queued in the same step: the listeners are told about the
+		// changes in the order in which they happened.
+		c.changes = append(c.changes, valueChange{conn: conn, new: value, old: old})
+
+		return true
 	}
 
-	changed, old := update()
-	if !changed {
-		return
+	if update() {
+		c.notifyChanges()
 	}
+}
 
-	if conn != nil {
-		c.onValueUpdateFromConn(c.connValueUpdateFuncs, conn, value, old)
+// notifyChanges tells the listeners about the changes which are queued, one change after
+// the other. A change which is made meanwhile – by a listener or by another goroutine – is
+// queued too and the listeners are told about it after the current one: with the value of
+// that change, not with the value the characteristic has by then.
+func (c *Characteristic) notifyChanges() {
+	for {
+		c.valueMutex.Lock()
+		if c.notifying || len(c.changes) == 0 {
+			// nothing to do, or the goroutine which is at it takes care of the queue
+			c.valueMutex.Unlock()
+			return
+		}
+		change := c.changes[0]
+		c.changes = c.changes[1:]
+		c.notifying = true
+		c.valueMutex.Unlock()
+
+		c.notifyChange(change)
+	}
+}
+
+func (c *Characteristic) notifyChange(change valueChange) {
+	defer func() {
+		// also when a listener panics
+		c.valueMutex.Lock()
+		c.notifying = false
+		c.valueMutex.Unlock()
+	}()
+
+	if change.conn != nil {
+		c.onValueUpdateFromConn(c.connValueUpdateFuncs, change.conn, change.new, change.old)
 	} else {
-		c.onValueUpdate(c.valueChangeFuncs, value, old)
+		c.onValueUpdate(c.valueChangeFuncs, change.new, change.old)
 	}
 }
 
